@@ -42,7 +42,10 @@ type Case struct {
 	Iter  int      `json:"iter,omitempty"`
 	Exits []string `json:"exits,omitempty"` // per routine: normal | return | error | interrupt
 	IntAt int      `json:"int_at,omitempty"`
-	Kind  string   `json:"kind,omitempty"` // s3: clos | flavor | hash
+	// Nested (s2): the main routine starts one more routine from inside its
+	// own with-mutex-lock region; that routine locks the same mutex.
+	Nested bool   `json:"nested,omitempty"`
+	Kind   string `json:"kind,omitempty"` // s3: clos | flavor | hash
 	// Resync: every routine calls (set-synchronized o t) again before each update
 	Resync bool `json:"resync,omitempty"`
 	// s4
@@ -122,6 +125,7 @@ func (e *engine) Generate(seed uint64, idx int, tier string, avoid []harness.Fin
 			c.Exits = append(c.Exits, []string{"normal", "normal", "return", "error", "interrupt"}[r.Intn(5)])
 		}
 		c.IntAt = 1 + r.Intn(12)
+		c.Nested = r.Pct(35)
 	case x < 85:
 		c.Scen = "s3"
 		c.R = 2 + r.Intn(3)
@@ -222,7 +226,14 @@ func (c *Case) program(sfx string) program {
 			}
 			fmt.Fprintf(&b, " (run (progn (dotimes (i %d) %s) (channel-push fin %d)))\n", c.Iter, crit, t)
 		}
-		fmt.Fprintf(&b, " (dotimes (i %d) (channel-pop fin))\n (with-mutex-lock m (sim-emit \"final\" n)))\n", c.R)
+		extra := 0
+		if c.Nested {
+			// a routine started under the lock shares the starter's scope; it
+			// must still wait for the mutex
+			extra = 1
+			fmt.Fprintf(&b, " (with-mutex-lock m (run (progn (with-mutex-lock m (sim-emit \"enter\" %[1]d) (setq n (+ n 1)) (sim-emit \"exit\" %[1]d)) (channel-push fin %[1]d))) (sim-emit \"enter\" %[2]d) (setq n (+ n 1)) (sim-emit \"exit\" %[2]d))\n", c.R, c.R+1)
+		}
+		fmt.Fprintf(&b, " (dotimes (i %d) (channel-pop fin))\n (with-mutex-lock m (sim-emit \"final\" n)))\n", c.R+extra)
 		return program{main: b.String()}
 	case "s3":
 		var setup strings.Builder
@@ -621,7 +632,11 @@ func (c *Case) judgeS2(out runOut) *harness.Violation {
 	if final < exits || final > enters {
 		return viol("lost-update", "counter is %d after %d entered and %d completed critical sections", final, enters, exits)
 	}
-	if want := c.R * c.Iter; enters != want {
+	want := c.R * c.Iter
+	if c.Nested {
+		want += 2
+	}
+	if enters != want {
 		return viol("lost-iteration", "%d critical sections were entered, expected %d", enters, want)
 	}
 	return nil
